@@ -280,5 +280,20 @@ def hasElement (v elem : Value) (elemHash : Option Int) : Res Value :=
     (hasElementU v.unmark elem.unmarkDeep elemHash).map (·.withMarks (unionMarks v.marks elem.marksDeep))
   else hasElementU v elem elemHash
 
+/-! ### LessThanOrEqualTo / GreaterThanOrEqualTo: `LessThan(other).Or(Equals(other))` -/
+def lessThanOrEqualTo (a b : Value) : Res Value := do
+  let l ← lessThan a b
+  let e ← equals a b
+  or l e
+def greaterThanOrEqualTo (a b : Value) : Res Value := do
+  let g ← greaterThan a b
+  let e ← equals a b
+  or g e
+
+/-- NotEqual: `Equals(other).Not()` -/
+def notEqual (a b : Value) : Res Value := do
+  let e ← equals a b
+  «not» e
+
 end Value
 end CtyModel
